@@ -344,8 +344,25 @@ impl Lowerer<'_> {
             let to_drop = self.stack_slots.pop().unwrap();
 
             if let Some(guard) = &arm.guard {
-                let op = self.expr(guard);
-                let op = self.assign_to_var(op, TyRef::BOOL);
+                // The guard is only evaluated if we get to this arm, so the
+                // temporaries that it creates need their own stack slot,
+                // which we drop as soon as the guard has been evaluated.
+                let op = self.undropped_tmp();
+                self.vars.push((op.clone(), TyRef::BOOL));
+
+                self.stack_slots.push(Vec::new());
+
+                let val = self.expr(guard);
+                self.do_assign(
+                    Place::new(op.clone(), TyRef::BOOL),
+                    TyRef::BOOL,
+                    val,
+                );
+
+                let guard_tmps = self.stack_slots.pop().unwrap();
+                for (var, ty) in guard_tmps.into_iter().rev() {
+                    self.emit_drop(Place::new(var, ty), ty);
+                }
 
                 let ident = Identifier::from(format!("guard_{}_drop", i));
                 let intermediate_lbl =
